@@ -72,6 +72,7 @@ def to_labels(recs):
     claimed_inflight = False
     forget_inflight = False
     held = False
+    dup_blocked = False
     d_had_o2 = False
     last_view = {"U": "o0i0p0", "D": "o0i0p0"}
     views = {"U": [], "D": []}
@@ -160,6 +161,11 @@ def to_labels(recs):
                         if u_pre is not None:
                             checks.append((i, "uPre", 2 if u_pre == "C" else 1, "preimage update handed to U's persister (%s)" % u_pre))
                             u_pre_inflight = (u_pre == "P")
+                        elif pend["U"] and not u_pre_inflight:
+                            # duplicate claim of an already durable preimage while other upstream updates are in
+                            # flight: its blocker waits for them
+                            emit("LDupBlocker")
+                            dup_blocked = True
                     else:
                         stop = "fulfil in phase %s" % d
                         break
@@ -203,9 +209,26 @@ def to_labels(recs):
                 ch = kv["chan"]
                 if ch in pend:
                     pend[ch].discard(int(kv["id"]))
+                    if ch == "U" and not pend["U"] and dup_blocked and not u_pre_inflight:
+                        i = emit("LFreeDup")
+                        dup_blocked = False
+                        if held:
+                            rel = None
+                            for r2 in g:
+                                if r2[2] == "PERSIST" and r2[3]["chan"] == "D" and "CommitmentSecret" in r2[3].get("steps", ""):
+                                    rel = r2[3]["ret"]
+                            if rel is None:
+                                checks.append((i, "dForget", DF["FHeld"], "held update not released in this step"))
+                            else:
+                                held = False
+                                forget_inflight = (rel == "P")
+                                checks.append((i, "dForget", DF["FInFlight"], "held update released to D's persister"))
+                                if rel == "C":
+                                    emit("LCompleteForget")
                     if ch == "U" and not pend["U"] and u_pre_inflight:
                         i = emit("LCompleteU")
                         u_pre_inflight = False
+                        dup_blocked = False
                         checks.append((i, "uPre", 2, "all upstream updates reported complete"))
                         if held:
                             # the release must show up at D's persister in this very step
